@@ -910,3 +910,115 @@ def check_C17(tier, seed):
                     "maxItems, page size | retries, failing executions); each is run as a real job; delivered and reported "
                     "sequences, outcome, recorded error, token / number of executions compared. evaluations = compared "
                     "answers; distinct_nontrivial = cases")
+
+
+# ----------------------------------------------------------------------------
+# C16
+
+TOKEN_KINDS = ["valid", "absent", "garbage", "expired", "wrongkey", "wrongissuer", "wrongaudience", "noaudience",
+               "noissuer", "rs512", "hs256", "none"]
+PARAMS = {":dataset": ["a", "b"], ":ds": ["a"], ":jobid": ["j1"], ":contentId": ["c1"], ":providerName": ["p1"], ":clientid": ["client1"]}
+OPEN_PREFIXES = ("/health", "/security/token", "/api", "/static", "/favicon.ico", "/mimiro-favicon.png")
+ACL_RESOURCES = ["/datasets/a", "/datasets/a*", "/datasets/*", "/*", "/jobs*", "/job/*", "/datasets/b/entities"]
+
+
+def authz_universe(routes):
+    reqs = []
+    for r in routes:
+        if r["path"] == "/" or r["method"] in ("echo_route_not_found",):
+            continue   # service info: needs a token but no ACL (DESIGN 8.5 item 13: informational)
+        paths = [r["path"]]
+        for p, vals in PARAMS.items():
+            nxt = []
+            for x in paths:
+                if p in x:
+                    nxt += [x.replace(p, v) for v in vals]
+                else:
+                    nxt.append(x)
+            paths = nxt
+        import re as _re
+        paths = [_re.sub(r":\w+", "x", x) for x in paths]
+        for p in sorted(set(paths)):
+            reqs.append({"method": r["method"], "path": p, "open": p.startswith(OPEN_PREFIXES)})
+    for i, r in enumerate(reqs):
+        r["id"] = i + 1
+    entries = []
+    for res in ACL_RESOURCES:
+        for action in ("read", "write"):
+            for deny in (False, True):
+                entries.append({"id": len(entries) + 1, "res": res, "action": action, "deny": deny})
+    def matches(res, path):
+        return res == path or (res.endswith("*") and path.startswith(res[:-1]))
+    pairs = sorted({(res, r["path"]) for res in ACL_RESOURCES for r in reqs if matches(res, r["path"])})
+    return reqs, entries, pairs
+
+
+def check_C16(tier, seed):
+    v = Verdict("C16", tier, seed)
+    v.wd = verif.workdir("C16")
+    sd = verif.spec_copy(v.wd)
+    binary = verif.build_harness(v.wd)
+    thorough = tier == "thorough"
+    routes_file = os.path.join(v.wd, "routes.json")
+    p = verif.subprocess.run([binary, "-test.run", "^TestAuthzRoutes$"], cwd=v.wd, capture_output=True, text=True,
+                             env=dict(os.environ, VERIF_ROUTES_OUT=routes_file, VERIF_DIR=os.path.join(v.wd, "routes_hub")))
+    verif.shutil.rmtree(os.path.join(v.wd, "routes_hub"), ignore_errors=True)
+    if p.returncode != 0 or not os.path.exists(routes_file):
+        verif.sys.stderr.write((p.stdout + p.stderr)[-2000:])
+        raise Inconclusive("could not list the router's routes")
+    reqs, entries, pairs = authz_universe(json.load(open(routes_file)))
+    uni = os.path.join(v.wd, "universe.json")
+    json.dump({"requests": reqs, "entries": entries}, open(uni, "w"))
+    name = "C16_decide"
+    consts = {"Requests": verif.Raw("{" + ", ".join(verif.tla_value(r) for r in reqs) + "}"),
+              "Entries": verif.Raw("{" + ", ".join(verif.tla_value(e) for e in entries) + "}"),
+              "MatchPairs": verif.Raw("{" + ", ".join("<<%s, %s>>" % (verif.tla_value(a), verif.tla_value(b)) for a, b in pairs) + "}"),
+              "TokenKinds": set(TOKEN_KINDS), "MaxAcl": 3 if thorough else 2}
+    verif.gen_mc(sd, name, "Authz", consts, "Spec", invariants=["DenyWins", "ReadNeverMutates", "NoTokenNoService", "Monotone"],
+                 view=None, constraint="EmitCase", header="TRUE")
+    out = os.path.join(v.wd, name + ".out")
+    st = verif.run_tlc(sd, name, out, timeout=1200)
+    v.add_tlc(st)
+    tot, results = verif.replay(binary, v.wd, out, label=name, test="TestAuthz", extra_env={"VERIF_UNIVERSE": uni})
+
+    def classify(r, d):
+        if d["kind"] != "authz":
+            return None
+        q = d["query"]
+        if q["token"] in ("noaudience", "noissuer"):
+            return "C16-missing-aud-iss-accepted"
+        if q["token"] != "valid" or q["role"] != "client":
+            return None
+        needed_write = q["method"] not in ("GET", "HEAD", "OPTIONS")
+        acl = q.get("acl") or []
+        def m(res, path):
+            return res == path or (res.endswith("*") and path.startswith(res[:-1]))
+        applies = [e for e in acl if m(e["Resource"], q["path"])]
+        if d["expected"] == "403" and str(d["actual"]).startswith("served"):
+            if any(e["Deny"] for e in applies) and any(not e["Deny"] for e in applies):
+                return "C16-allow-overrides-deny"
+            if needed_write and q["method"] in ("PUT", "PATCH") and any((not e["Deny"]) and e["Action"] == "read" for e in applies):
+                return "C16-put-patch-need-only-read"
+        return None
+    v.add_replay(tot, results, classify=classify, label=name)
+    os.remove(out)
+    # persistence of client registrations and ACLs across restarts
+    name = "C16_persist"
+    verif.gen_mc(sd, name, "AuthzPersist", {"Clients": {"c1", "c2"}, "MaxOps": 5 if thorough else 4}, "PSpec", view="pview", constraint="PEmit", header="TRUE")
+    out = os.path.join(v.wd, name + ".out")
+    st = verif.run_tlc(sd, name, out)
+    v.add_tlc(st)
+    tot, results = verif.replay(binary, v.wd, out, label=name, test="TestAuthzPersist")
+    v.add_replay(tot, results, label=name,
+                 classify=lambda r, d: "C16-acl-file-corrupted-by-delete" if d["kind"] in ("acls", "clients") and any(
+                     s.get("a") in ("delacl", "unregister") for s in (d.get("query") or [])) and any(
+                     s.get("a") == "restart" for s in (d.get("query") or [])) else None)
+    os.remove(out)
+    v.assumptions = ["routes are taken from the real router at check time; path parameters are instantiated with fixed names",
+                     "security mode 'local' (node key RS256); OPA is not configured, the ACL check decides",
+                     "decision classes: 401 (also the middleware's 400 for a missing token), 403, served (anything else)",
+                     "ACL sets of up to 2 entries (quick) / 3 entries (thorough) out of 28"]
+    return v.finish(rule="cases = every initial state TLC enumerates from spec/Authz.tla (request x token kind, request x ACL "
+                    "set of <= 2 entries) and every bounded client/ACL management sequence with restarts; each is sent through "
+                    "the real router + JWT middleware + authorizer, or executed on the real ServiceCore. evaluations = "
+                    "compared decisions; distinct_nontrivial = distinct cases")
